@@ -24,7 +24,7 @@ FW_PLANS = {
         rule=RULE % "at least one call with a non-empty batch",
         quick=dict(
             mc=[C("core-quick", "core", 2, 2, "mixed", ["Inv_C01"])],
-            gen=[C("core-quick", "core", 2, 1, "mixed")],
+            gen=[C("core-quick", "core", 2, 1, "mixed"), C("end-quick", "end", 2, 2, "one")],
             rand=dict(scenarios=300, calls=30, flags=["--big-ids"])),
         thorough=dict(
             workers=14,
@@ -62,8 +62,8 @@ FW_PLANS = {
         verdicts={"C04"},
         rule=RULE % "a call that returns at least one action",
         quick=dict(
-            mc=[C("core-quick", "core", 2, 2, "mixed", ["Inv_C04"])],
-            gen=[C("core-quick", "core", 2, 1, "mixed")],
+            mc=[C("core-quick", "core", 2, 2, "mixed", ["Inv_C04"]), C("end-quick", "end", 3, 2, "one", ["Inv_C04"])],
+            gen=[C("core-quick", "core", 2, 1, "mixed"), C("end-quick", "end", 2, 2, "one")],
             rand=dict(scenarios=300, calls=30)),
         thorough=dict(
             workers=14,
@@ -80,7 +80,7 @@ FW_PLANS = {
                  C("ctr-quick", "ctr", 1, 3, "one"), C("sig-trio", "sig", 1, 2, "one"),
                  C("sig-quick", "sig", 2, 1, "one"), C("limit-quick", "limit", 3, 1, "one"),
                  C("limit-duo", "limit", 3, 1, "one"), C("sig-duo", "sig", 2, 2, "one"),
-                 C("limit-reenter", "limit", 3, 1, "one")],
+                 C("limit-reenter", "limit", 3, 1, "one"), C("end-quick", "end", 2, 2, "one")],
             rand=dict(scenarios=400, calls=30), compose=dict(scenarios=40)),
         thorough=dict(
             workers=14, compose=dict(scenarios=400),
